@@ -50,6 +50,7 @@ inductive Cond where
   | and (a b : Cond)     -- short-circuit, left to right
   | or (a b : Cond)
   | chk (c : Chk)
+  | gsl (k : Nat)        -- `status_k = gsl_…_e(…, &result)` / `if (gsl_…_e(…))`: true iff the status is not GSL_SUCCESS; the outcome is kept in local k
   deriving DecidableEq, Repr, Inhabited
 
 inductive Stmt where
@@ -66,6 +67,7 @@ inductive Stmt where
   | seq (a b : Stmt)
   | for_ (x start : Nat) (body : Stmt)   -- for (x = start; x < al->n; ++x) body
   | retCheck                             -- return check_result(al, <opaque>)
+  | retCheckNaN                          -- return check_result(al, GSL_NAN)   (the `status ? GSL_NAN : result.val` idiom, failing arm)
   | ret0                                 -- return 0
   | retRaw                               -- return <opaque>   (no check_result)
   deriving DecidableEq, Repr, Inhabited
@@ -116,6 +118,7 @@ structure St where
   tv : Nat
   tc : Nat
   ret : Option Ret
+  gf : Bool              -- some GSL `_e` routine called during this run reported a status other than GSL_SUCCESS
 
 abbrev Env := List (Nat × Nat)   -- loop variables
 
@@ -225,6 +228,9 @@ def evalCond (o : Oracle) (a : Args) (m : Mode) (e : Env) : Cond → St → Bool
     let r := evalCond o a m e c1 s
     if r.1 then (true, r.2) else evalCond o a m e c2 r.2
   | .chk c, s => evalChk o a m e c s
+  | .gsl k, s =>
+    let bad := o.cond s.tc
+    (bad, { s with lb := upd s.lb k bad, gf := s.gf || bad, tc := s.tc + 1 })
 
 /-- number of entries of the packed upper triangle -/
 def hesLen (n : Nat) : Nat := n * (n + 1) / 2
@@ -270,12 +276,13 @@ def exec (o : Oracle) (a : Args) (m : Mode) : Stmt → Env → St → St
   | .seq p q, e, s => thenSt (exec o a m p e s) (fun s' => exec o a m q e s')
   | .for_ x start body, e, s => loopFrom (exec o a m body) e x a.n a.n start s
   | .retCheck, _, s => checkResult a m (o.rval s.tv) { s with tv := s.tv + 1 }
+  | .retCheckNaN, _, s => checkResult a m true s
   | .ret0, _, s => { s with ret := some .zero }
   | .retRaw, _, s => { s with ret := some (.val (o.rval s.tv)), tv := s.tv + 1 }
 
 def St.init (a : Args) : St :=
   { err := none, d := a.d0, wd := fun _ => false, h := a.h0, wh := fun _ => false,
-    lb := fun _ => false, tv := 0, tc := 0, ret := none }
+    lb := fun _ => false, tv := 0, tc := 0, ret := none, gf := false }
 
 /-- run a binding: ASL clears `Errmsg` before the call -/
 def run (body : Stmt) (o : Oracle) (a : Args) (m : Mode) : St := exec o a m body [] (St.init a)
